@@ -296,6 +296,50 @@ ARGSETS = {
     ],
 }
 
+# the option space the seeded sequences draw from: (name, values); the first value is the default (omitted from the call)
+OPTION_SPACE = {
+    'lammps': [('temperature', [300, 700, 1000.5]), ('time_step', [1.0, 2.5]), ('type_mapping', [None, 'A', 'B']), ('constant_lattice', [None, True, False]),
+               ('atom_style', [None, 'atomic', 'charge']), ('_data', [None, 'data2.txt']), ('coords_format', [None, 'xyz', 'XYZ'])],
+    'vasp': [('constant_lattice', [None, True, False]), ('ionic_step_skip', [None, 2, 3]), ('ionic_step_offset', [None, 0, 1]), ('parse_dos', [None, False]),
+             ('exception_on_bad_xml', [None, True])],
+    'gromacs': [('temperature', [300, 450]), ('constant_lattice', [None, True, False]), ('_top', [None, 'top2.gro'])],
+}
+REQUIRED = {'lammps': ('temperature', 'time_step'), 'vasp': (), 'gromacs': ('temperature',)}
+
+
+def _argset_from_digits(fmt, digits):
+    out = {}
+    for (name, values), dgt in zip(OPTION_SPACE[fmt], digits):
+        v = values[dgt]
+        if v is None and name not in REQUIRED[fmt]:
+            continue
+        out[name] = v
+    return out
+
+
+def gen_argsets(rng, fmt: str) -> list:
+    """1-4 loader argument sets for one dataset: a random base combination of the whole option space plus
+    neighbours that differ from it (or from each other) in exactly one option - the situation in which a cache key that
+    forgets an option returns the wrong trajectory."""
+    space = OPTION_SPACE[fmt]
+    base = []
+    for name, values in space:
+        # bias towards values that parse (failing combinations are still drawn, they pin the exception outcome)
+        w = [3 if i == 0 else 1 for i in range(len(values))]
+        if values[-1] in (False, 'charge'):
+            w[-1] = 0.4
+        base.append(rng.weighted({i: w[i] for i in range(len(values))}))
+    out = [base]
+    for _ in range(rng.randint(0, 3)):
+        src = list(rng.pick(out))
+        j = rng.randrange(len(space))
+        choices = [i for i in range(len(space[j][1])) if i != src[j]]
+        src[j] = rng.pick(choices)
+        if src not in out:
+            out.append(src)
+    return [_argset_from_digits(fmt, d) for d in out]
+
+
 TYPE_MAPS = {
     'A': {'LI': 'Na', 'NA': 'Li', 'S': 'O', 'P': 'Si', 'O': 'S'},
     'B': {'LI': 'K', 'NA': 'K', 'S': 'Se', 'P': 'As', 'O': 'Te'},
@@ -306,7 +350,7 @@ def loader_call(fmt: str, dirpath: str, argset: dict, cache):
     """Return (callable_name, kwargs) for gemdat.Trajectory loader with relative paths."""
     a = dict(argset)
     if fmt == 'lammps':
-        if 'type_mapping' in a:
+        if a.get('type_mapping') is not None:
             a['type_mapping'] = dict(TYPE_MAPS[a['type_mapping']])
         kw = dict(coords_file=os.path.join(dirpath, 'coords.xyz'), data_file=os.path.join(dirpath, a.pop('_data', 'data.txt')), **a)
         name = 'from_lammps'
